@@ -129,7 +129,12 @@ func CheckPillarBalance(g *GenesisConfig) error {
 }
 func CheckTokenTotalSupply(g *GenesisConfig) error {
 	given := make(map[types.ZenonTokenStandard]*big.Int)
+	seen := make(map[types.Address]bool)
 	for _, block := range g.GenesisBlocks.Blocks {
+		if seen[block.Address] {
+			return errors.Errorf("more than one genesis block for %v", block.Address)
+		}
+		seen[block.Address] = true
 		for zts, amount := range block.BalanceList {
 			total, ok := given[zts]
 			if !ok {
